@@ -195,6 +195,11 @@ pub fn nest_families() -> Vec<(&'static str, &'static str, &'static str, &'stati
         ("spread", "#", "f(..", ")", "x"),
         ("letin", "#", "{ let x = ", "}", "1"),
         ("forloop", "#", "for x in y {", "}", "x"),
+        // a chain outside continued code whose operand re-enters plain code / markup (the two alternate at every level)
+        ("blockbin", "#", "{ 1 + ", " }", "0"),
+        ("letblockbin", "#let v = ", "1 + {\nlet v = ", "\nv\n}", "1 + 0"),
+        ("dotcnt", "#", "a.b().c()[#", "]", "x"),
+        ("condbin", "#", "{ if a == ", " { b } }", "c"),
         ("mix1", "#", "f([#g(", ")])", "x"),
         ("mix2", "#", "(a: [$ vec(#(", ")) $])", "1"),
     ]
